@@ -272,6 +272,7 @@ fn write_replay<I: Serialize>(ctx: &Ctx, section: &str, input: &I, f: &Fail) -> 
 /// code is a harness error; one located in the library is a failure of the property.
 fn eval<I>(check: CheckFn<I>, input: &I, case: &mut Case) -> Result<Result<(), Fail>, String> {
     match meter::catch(|| check(input, case)) {
+        Ok(Err(f)) if f.sig.starts_with("harness:") => Err(format!("{}: {}", f.sig, f.msg)),
         Ok(r) => Ok(r),
         Err(p) => {
             if p.in_library() {
@@ -328,21 +329,24 @@ where
                         let frozen = std::cell::Cell::new(false);
                         let stats_cell = std::cell::RefCell::new(&mut stats);
                         let herr: std::cell::RefCell<Option<String>> = Default::default();
-                        let seed = derive_seed(ctx.seed, &ctx.property, self.name, shard);
-                        let chunk = 64usize.min(per.max(1));
-                        let mut config = Config::default();
-                        config.cases = chunk as u32;
-                        config.failure_persistence = None;
-                        config.rng_seed = RngSeed::Fixed(seed);
-                        config.max_shrink_iters = ctx.tier.pick(2000, 8000);
-                        config.verbose = 0;
-                        let mut runner = TestRunner::new(config);
+                        let chunk = 256usize.min(per.max(1));
                         let strat = (self.strategy)(ctx.tier);
                         let mut done = 0usize;
+                        let mut chunk_no = 0usize;
                         while done < per {
                             if ctx.stop.load(Ordering::Relaxed) {
                                 break;
                             }
+                            // proptest counts successes per runner: one runner per chunk, seeded per (shard, chunk)
+                            let seed = derive_seed(ctx.seed, &ctx.property, self.name, shard * 1_000_003 + chunk_no);
+                            chunk_no += 1;
+                            let mut config = Config::default();
+                            config.cases = chunk.min(per - done) as u32;
+                            config.failure_persistence = None;
+                            config.rng_seed = RngSeed::Fixed(seed);
+                            config.max_shrink_iters = ctx.tier.pick(2000, 8000);
+                            config.verbose = 0;
+                            let mut runner = TestRunner::new(config);
                             let r = runner.run(&strat, |input| {
                                 let mut case = Case::default();
                                 match eval(self.check, &input, &mut case) {
@@ -471,7 +475,7 @@ where
                     .spawn_scoped(scope, move || {
                         let mut stats = Stats::default();
                         let mut seen_sigs: HashSet<String> = HashSet::new();
-                        (self.enumerate)(ctx.tier, shard, shards, &mut |input: I| {
+                        let walked = meter::catch(|| (self.enumerate)(ctx.tier, shard, shards, &mut |input: I| {
                             if ctx.stop.load(Ordering::Relaxed) {
                                 return false;
                             }
@@ -507,7 +511,10 @@ where
                                     }
                                 }
                             }
-                        });
+                        }));
+                        if let Err(p) = walked {
+                            herrs.lock().unwrap().push(format!("{}: enumerator panicked at {}:{}: {}", self.name, p.file, p.line, p.msg));
+                        }
                         agg.lock().unwrap().merge(stats);
                     })
                     .unwrap();
